@@ -292,7 +292,16 @@ var ringPool = sync.Pool{New: func() any {
 		}
 		return r
 	}
-	return &rings{mk(false), mk(true), mk(false), mk(false)}
+	// the watcher pair uses replication factor 1: with 2..3 instances a larger factor makes every instance own every key
+	mk1 := func() *ring.Ring {
+		cfg := ring.Config{HeartbeatTimeout: time.Hour, ReplicationFactor: 1, SubringCacheDisabled: true}
+		r, err := ring.NewWithStoreClientAndStrategy(cfg, "c05w", "k", nil, ring.NewDefaultReplicationStrategy(), nil, log.NewNopLogger())
+		if err != nil {
+			panic(err)
+		}
+		return r
+	}
+	return &rings{mk(false), mk(true), mk1(), mk1()}
 }}
 
 // queryRing feeds the state to real ring clients as a reader would see it and runs lookups.
